@@ -186,20 +186,20 @@ package gocvss30
 //@   requires[wf] (wf30 cvss30)
 //@   inline Impact Exploitability
 //@   ensures[spec] (fp.eq result (tenth (base30K cvss30)))
-//@   ensures[one_decimal_in_scale] (exists-in (k 0 100) (fp.eq result (tenth k)))
+//@   ensures[one_decimal_in_scale] (isTenthIn result 0 100)
 //@   ensures[rating_accepts] (>= (ratingClass result) 0)
 //@   ensures[no_allocation] (= allocs (old allocs))
 
 //@ func (CVSS30).TemporalScore(cvss30)
 //@   requires[wf] (wf30 cvss30)
 //@   ensures[spec] (fp.eq result (tenth (temporalFrom30 (base30K cvss30) cvss30)))
-//@   ensures[one_decimal_in_scale] (exists-in (k 0 100) (fp.eq result (tenth k)))
+//@   ensures[one_decimal_in_scale] (isTenthIn result 0 100)
 //@   ensures[rating_accepts] (>= (ratingClass result) 0)
 //@   ensures[no_allocation] (= allocs (old allocs))
 
 //@ func (CVSS30).EnvironmentalScore(cvss30)
 //@   requires[wf] (wf30 cvss30)
 //@   ensures[spec] (fp.eq result (tenth (envFrom30 (envInner30K cvss30) cvss30)))
-//@   ensures[one_decimal_in_scale] (exists-in (k 0 100) (fp.eq result (tenth k)))
+//@   ensures[one_decimal_in_scale] (isTenthIn result 0 100)
 //@   ensures[rating_accepts] (>= (ratingClass result) 0)
 //@   ensures[no_allocation] (= allocs (old allocs))
